@@ -240,6 +240,6 @@ def cases(tier, seed):
         cs.append(Case('step_set_4_on_%s_copy' % via, h_step, params=dict(op='set', index=4, via_copy=via)))
         cs.append(Case('step_setitem_1_on_%s_copy' % via, h_step, params=dict(op='setitem', index=1, via_copy=via)))
     if tier == 'thorough':
-        for op in ('sTM', 'setQuat', 'inv', 'matmul_array'):
+        for op in ('sTM', 'setQuat', 'inv'):
             cs.append(Case('step_%s_real_log' % op, h_step, params=dict(op=op, summary=False)))
     return cs
